@@ -86,6 +86,9 @@ def po2(facts, rep):
                     continue
             if key in AUDIT:
                 rep.audited(rule, key, o['where'], AUDIT[key])
+            elif eng_po.orphan_match(key, AUDIT, set(facts.bodies)):
+                k0 = eng_po.orphan_match(key, AUDIT, set(facts.bodies))
+                rep.audited(rule, key, o['where'], 'arithmetic of the removed function %s, now written in its caller: %s' % (k0.split('|')[0], AUDIT[k0]))
             else:
                 rep.bad(rule, key, o['where'], 'a %s obligation reachable from untrusted input is neither discharged nor '
                                                'audited: %s' % (o['kind'], o['detail']))
@@ -474,3 +477,15 @@ def run(facts, rep, ctx):
     ed1(facts, rep)
     lp1(facts, rep)
     tb3(facts, rep)
+
+
+_run_before_round3 = run
+
+
+def run(facts, rep, ctx):
+    """rules added after the second seeding round, second half (rules/round3.py)"""
+    _run_before_round3(facts, rep, ctx)
+    from . import round3
+    round3.lt2(facts, rep)
+    round3.sk1(facts, rep)
+
